@@ -1107,7 +1107,65 @@ def wl_formulas(run, rng, idx):
     run.note_class("formulas", kind, "scalar-n" if idx % 2 else "array-n")
 
 
+def wl_point_along_histories(run, rng, idx):
+    """two classes found by the second seeding round, both judged by the
+    point_along postcondition and re-checked here against the reference:
+    (a) integer-typed distances (np.arange, np.int64, Python int): the point is
+        at distance |t|, not at the basepoint (C13-r2-1: tanh(t) truncated in an
+        integer buffer);
+    (b) query, transform, query again: u.point_along(t0); v = g @ u;
+        v.point_along(t) walks along v, not along u (C13-r2-2: a frame cached on u
+        and carried onto g @ u by apply's shallow copy)."""
+    from geometry_tools.hyperbolic import Point, TangentVector, Isometry
+    mon = run.monitor("geodesic")
+    d = 2 + idx % 4
+    shape = [(), (3,), (2, 2)][(idx // 4) % 3]
+    kp = gen_points(rng, d, shape, "bulk")
+    Pp = rh.klein_to_proj(kp)
+    wp, vp = rand_tangent(rng, Pp, "tangent")
+    case = {"dimension": d, "shape": list(shape), "p": Pp, "v": vp}
+    run.current_case = case
+    u = TangentVector(Point(Pp.copy()), vp.copy()).normalized()
+    if idx % 2 == 0:
+        which = (idx // 2) % 3
+        tf = rng.integers(-3, 4, size=shape).astype(float) if shape else float(rng.integers(-3, 4))
+        targ = [np.asarray(tf).astype(np.int64), np.asarray(tf).astype(np.int32),
+                (int(tf) if not shape else np.asarray(tf).astype(np.int64))][which]
+        case.update(t=tf, t_type=str(getattr(targ, "dtype", type(targ).__name__)))
+        X = u.point_along(targ)
+        xk = np.asarray(X.coords("klein"), dtype=float)
+        T = np.broadcast_to(np.asarray(tf, dtype=float), tuple(shape))
+        exp = rh.exp_map(Pp, wp, T)
+        ct = r2.coord_tol(r2.omr_far(r2.one_minus_r_klein(kp), T))
+        judge_rows(mon, r2.dist_klein_ref(xk, exp), ct, None, "geodesic/point_along/integer-distance",
+                   "point_along(<integer-typed t>) is not the point at arc length t",
+                   lambda w: dict(case, row=w))
+        run.note_class("point_along-int", d, shape, which)
+    else:
+        t0 = float(rng.uniform(-2, 2))
+        u.point_along(t0)                           # first query on u
+        A = rh.rand_isometry(rng, d, tmax=1.0)
+        g = Isometry(A, column_vectors=True)
+        v = g @ u
+        t = float(rng.uniform(0.3, 2.0)) * float(rng.choice([-1, 1]))
+        case.update(t0=t0, t=t, isometry=A)
+        X = v.point_along(t)                        # second query, on the image
+        xk = np.asarray(X.coords("klein"), dtype=float)
+        Pi = Pp @ A.T
+        wi = wp @ A.T
+        T = np.full(tuple(shape), t)
+        exp = rh.exp_map(Pi, wi, T)
+        ki = rh.proj_to_klein(Pi)
+        ct = r2.coord_tol(r2.omr_far(r2.one_minus_r_klein(ki), T)) * 10
+        judge_rows(mon, r2.dist_klein_ref(xk, exp), ct, None, "geodesic/point_along/after-transform",
+                   "(g @ u).point_along(t), asked after u.point_along(t0), is not the point at arc "
+                   "length t along the transformed vector",
+                   lambda w: dict(case, row=w))
+        run.note_class("point_along-after-transform", d, shape)
+
+
 WORKLOADS = [
+    Workload("point_along-histories", wl_point_along_histories, quick=72, thorough=2880),
     Workload("origin_to", wl_origin, quick=144, thorough=17280),
     Workload("tangent", wl_tangent, quick=144, thorough=17280),
     Workload("point_along", wl_point_along, quick=192, thorough=23040),
